@@ -15,12 +15,18 @@ RULE = (
     "disconnect(peer, close|abort), connect_fail(peer, refuse|hang|slow(2-4.5 s): next direct connect of the client "
     "to it), potential_parents with 8-13 additional unreachable names ('ghosts': nobody listens, unknown to the "
     "server) and wait(t) - together the family 'more proposals than the documented 20-name cache, the connect to "
-    "the first proposed user completes after its name left the cache' (12 % of the seeded sequences of length >= 7), "
+    "the first proposed user completes after its name left the cache' (12 % of the seeded sequences of length >= 7); "
+    "stall(during: 1-3 peer events): the scripted server stops reading and the application sends one 400 kB "
+    "private message, so the simulated socket buffers fill and every further write of the client to the server "
+    "suspends until the server reads again (< 2 s, below the 10 s write timeout) - family 'child, parent and a "
+    "silent candidate; during the stall the parent leaves and the candidate announces' in 7 % of the sequences of "
+    "length >= 7; family 'the connect to a proposed user fails on both paths (refuse|hang + relayed CannotConnect, "
+    "wait 11 s after a hang), then that user dials in' in 8 %; "
     "limits(ParentMinSpeed+ParentSpeedRatio, own speed answered to GetUserStats: documented child limit 0/1/3/11, "
     "acceptance off/on), reset (ResetDistributed), session_loss (server RST; optionally 1-2 peer events applied "
     "while the client has no session; then connect_server + login by the harness, reconnect.auto is off). Per case: "
-    "connect mode race|fallback, per peer reaction to a relayed ConnectToPeer (pierce|cannot|ignore). First 84 "
-    "cases: 42 hand-written sequences of length 1-8 (x both connect modes) so that the lowest-numbered witness is a "
+    "connect mode race|fallback, per peer reaction to a relayed ConnectToPeer (pierce|cannot|ignore). First 106 "
+    "cases: 53 hand-written sequences of length 1-8 (x both connect modes) so that the lowest-numbered witness is a "
     "short one; then seeded sequences whose length is non-decreasing in the case number (2..10). Even cases "
     "separate events by 0.5 virtual s of quiescence (history quantifier); odd cases fire bursts of 2-4 events with "
     "gaps of 0-3 loop yields / 1-8 ms, every remote party applying its own events in order (schedule quantifier), "
@@ -30,7 +36,10 @@ RULE = (
     "link whose peer announced level and root; at entry of every _add_child: acceptance on, len(children) < max, "
     "name not in the potential-parent list, connection not one the client itself opened (SimNet: dialled by 'me', or "
     "pierced by the scripted peer on the client's ConnectToPeer) (the library's own values, and the documented "
-    "formula whenever a limits event has been settled in the current session); last BranchLevel/BranchRoot/ToggleParentSearch of the "
+    "formula whenever a limits event has been settled in the current session; a name the client processed in a "
+    "PotentialParents list of the current session counts as proposed whatever the library's cache holds, as long as "
+    "<= 20 names were proposed); every connection that was taken as child and that nobody closed (both simulated "
+    "endpoints open) is still in the children list (child-dropped-but-connection-open); last BranchLevel/BranchRoot/ToggleParentSearch of the "
     "current server session and last DistributedBranchLevel/Root on each child's link == position derived from "
     "the fold of the frames the client processed on the current parent's connection. A mismatch is reported once "
     "(re-reported only when expectation or told values change), under position:<server|child>:<first wrong field>:"
@@ -59,9 +68,9 @@ ASSUMPTIONS = [
 ]
 MIN_OBS = {
     'quick': {'sequences': 410, 'events_applied': 2000, 'quiescence_checks': 1500, 'add_child_observed': 200,
-              'position_checks': 2000, 'parents_set': 170},
+              'position_checks': 2000, 'parents_set': 150, 'stalls_with_suspended_writes': 30},
     'thorough': {'sequences': 14500, 'events_applied': 70000, 'quiescence_checks': 55000, 'add_child_observed': 7000,
-                 'position_checks': 70000, 'parents_set': 6000},
+                 'position_checks': 70000, 'parents_set': 6000, 'stalls_with_suspended_writes': 1500},
 }
 SHARD_TIMEOUT = {'quick': 600, 'thorough': 5400}
 N_RANDOM = {'quick': 2000, 'thorough': 400000}
